@@ -191,7 +191,13 @@ pub const POSIX_FIXED: &[&str] = &[
     "AAA3BBB,M1.1.0/0,M12.5.6/24",
     "XXX-3YYY,M4.1.0/-24,M9.5.0/167",
     "ABC-1:23:45DEF-2:34:56,M5.3.3/12:34:56,M8.2.5/1:02:03",
+    // midnight inside a gap that began before it (23:30 -> 00:30), and inside the clock times a set-back repeats
+    // (00:30 -> 23:30 of the day before): the drivers of the zoned properties always take these (QUICK_FIXED)
+    "AAA0BBB-1,M3.2.0/23:30,M11.1.0",
+    "CCC0DDD-1,M3.2.0/23:30,M11.1.0/0:30",
 ];
+/// indices of POSIX_FIXED that the quick tier of the zoned drivers takes besides the first eight
+pub const QUICK_FIXED: &[usize] = &[18, 19, 20];
 
 // ---------------------------------------------------------------------------
 // probe-point helpers (Howard Hinnant's days_from_civil; input selection only)
